@@ -65,6 +65,9 @@ def std_dataset(rng, **kw):
             D.meta['no_phyloxml'] = True                      # (PhyloXML name fields are XML tokens: their white space is collapsed by the reader)
         def rn_(t):
             return (ren_.get(t[0], t[0]) if not t[1] else t[0], tuple(rn_(k_) for k_ in t[1]))
+        if len(lv_) >= 4 and rng.random() < 0.5:
+            d_ = rng.choice([x_ for x_ in lv_ if gen.sub(D.T, x_)[0] not in ren_])
+            ren_[gen.sub(D.T, d_)[0]] = 'Ecoli K-12/MG1655'      # ... and a strain name holding a slash (r11-C13b: synthesised names split at '/')
         D.T = rn_(D.T)
         D.species = [(ren_.get(n_, n_), g_) for n_, g_ in D.species]
         D.groups = [g_ for p_, l_, _ in D.families for g_ in gen.encode(D.T, D.naming, p_, l_)]
@@ -364,7 +367,7 @@ def explore_load(prop, tier, seed, oracle, tags, n_quick, emit=(), with_truth=Fa
                         bad.append('gene %s has a parent but is not reachable from any listed top-level HOG' % g_.unique_id)
                     if g_.parent is not None and g_.get_top_level_hog() not in h.get_list_top_level_hogs():
                         bad.append('gene %s reports a top-level HOG that is not listed' % g_.unique_id)
-            elif D.meta.get('species_level') and prop == 'C03':
+            elif D.meta.get('species_level') and prop in ('C03', 'C04'):
                 # outside the history domain (D7): the MRCA-rule oracle does not apply; the whole hierarchy is compared with the
                 # model, which follows the dissolving branch and its depth patch (r9-C03a)
                 bad = []
@@ -514,7 +517,7 @@ def c03(tier, seed):
     return explore_load('C03', tier, seed, orc.c03, ['load', 'forest', 'members'], 1200, with_truth=True, species_level=True)
 
 def c04(tier, seed):
-    return explore_load('C04', tier, seed, orc.c04, ['load', 'genomes', 'agname'], 900)
+    return explore_load('C04', tier, seed, orc.c04, ['load', 'genomes', 'agname'], 900, species_level=True)
 
 # ------------------------------------------------------------------------------ comparisons
 
